@@ -417,7 +417,13 @@ func (srv *server) registerClient(connect *packets.Connect, client *client) (ses
 	srv.statsManager.clientConnected(client.opts.ClientID)
 
 	if oldSession != nil {
-		if !oldSession.IsExpired(now) && !connect.CleanStart {
+		// The session expiry interval is measured from the end of the last network connection,
+		// i.e. the deadline recorded in offlineClients (not from the session's ConnectedAt).
+		expired := false
+		if expiredTime, ok := srv.offlineClients[oldSession.ClientID]; ok {
+			expired = now.After(expiredTime)
+		}
+		if !expired && !connect.CleanStart {
 			sessionResume = true
 		}
 		// clean old session
